@@ -192,6 +192,15 @@ Proof. intros Hn. unset_tac n Hn. Qed.
 Lemma bits_unset f n : v16 n -> u16 (flag_unset f n) = Z.ldiff (u16 f) n.
 Proof. intros Hn. unset_tac n Hn. Qed.
 
+Lemma set_bits_independent f n : v16 n ->
+  flag_len (flag_set f n) = flag_len f /\ flag_position (flag_set f n) = flag_position f /\
+  flag_group (flag_set f n) = flag_group f /\ u16 (flag_set f n) = Z.lor (u16 f) n.
+Proof. intros H. repeat split; [apply len_set | apply position_set | apply group_set | apply bits_set]; exact H. Qed.
+Lemma unset_bits_independent f n : v16 n ->
+  flag_len (flag_unset f n) = flag_len f /\ flag_position (flag_unset f n) = flag_position f /\
+  flag_group (flag_unset f n) = flag_group f /\ u16 (flag_unset f n) = Z.ldiff (u16 f) n.
+Proof. intros H. repeat split; [apply len_unset | apply position_unset | apply group_unset | apply bits_unset]; exact H. Qed.
+
 (* ---- Clear, as the code has it: Flag(uint16(f)) ^ FlagFrag ------------------------ *)
 Lemma clear_spec f i : Z.testbit (flag_clear f) i = xorb ((i <? 16) && Z.testbit f i) (i =? 0).
 Proof. unfold flag_clear, FlagFrag. rewrite Z.lxor_spec, tb_u16, tb_one. reflexivity. Qed.
@@ -688,9 +697,11 @@ Proof.
 Qed.
 
 (* the round trip of the nested form through data.NewReader, for every split into short reads *)
-Theorem unmarshal_srd_marshal_stream p : wf_stream p = true -> consumes unmarshal_srd (marshal_stream p) p.
+Theorem unmarshal_srd_marshal_stream p s rest :
+  wf_stream p = true -> no_empty s -> concat s = marshal_stream p ++ rest ->
+  exists s', unmarshal_srd s = Ok (p, s') /\ concat s' = rest /\ no_empty s'.
 Proof.
-  intros H s rest Hs Hc. pose proof (stream_readers_agree s Hs) as Ag.
+  intros H Hs Hc. pose proof (stream_readers_agree s Hs) as Ag.
   rewrite Hc, unmarshal_stream_marshal_stream in Ag by exact H.
   destruct (unmarshal_srd s) as [[p' s']| |]; try contradiction.
   destruct Ag as (<- & C & N). exists s'. repeat split; assumption.
